@@ -73,11 +73,19 @@ Proof. reflexivity. Qed.
    of cflags_base in one entry - clang's, hence zig cc's - makes this false and with it base_mode_wrapv) *)
 Lemma gcc_derived_entries_wrap : forallb (fun b => b) gcc_derived_base_has_fwrapv = true /\ m_wrapv base_mode = true.
 Proof. split; reflexivity. Qed.
-(* full statement for the remaining entry a C compiler can be selected through: a GNU C compiler named `cc` wraps too.
-   False today: compilers_flags.cc has cflags_base = "" and nothing adds the flag (`nelua --cc cc --verbose`) *)
+(* the remaining entry a C compiler can be selected through: a GNU C compiler named `cc` (--cc cc, CC=cc) wraps too.
+   compilers_flags.cc has cflags_base = "" but, since /repo b8b86ad, ccompiler.get_compiler_cflags gives the generic
+   entry gcc's base flags when the compiler identifies itself as GNU C or clang (scraped: generic_cc_gets_gnu_base;
+   a revert makes this false: before, `nelua --cc cc --verbose` showed no -fwrapv and `x + 1 > x` on an int32 holding
+   2147483647 was true) *)
 Definition generic_cc_wraps_full : Prop := generic_cc_wraps = true.
-Lemma generic_cc_wraps_refuted : ~ generic_cc_wraps_full.
-Proof. unfold generic_cc_wraps_full. discriminate. Qed.
+Lemma generic_cc_wraps_ok : generic_cc_wraps_full.
+Proof. reflexivity. Qed.
+(* for every value of the three scraped facts: the generic entry wraps iff it has the flag itself or gets gcc's
+   base flags and those have it *)
+Lemma generic_cc_wraps_needed : generic_cc_base_has_fwrapv = false ->
+  (generic_cc_wraps = true <-> generic_cc_gets_gnu_base = true /\ gcc_base_has_fwrapv = true).
+Proof. unfold generic_cc_wraps. intros ->. cbn [orb]. split; [apply andb_prop|intros [-> ->]; reflexivity]. Qed.
 
 (* plain + - * and unary - never execute UB in the dialect the base flags select ... *)
 Lemma arith_result_base t r : arith_result base_mode t r <> None.
